@@ -276,3 +276,18 @@ reg('C07',
     level_text='Exhaustive over the 8/16-bit integer spaces, short strings and block lengths through the full input path, and over all 2^32 32-bit values at token level (thorough).',
     level_note='the token-level sweep calls private lexer functions by name',
     design_ref='DESIGN.md section 3 / C07')
+
+reg('C16',
+    title='floating-point text keeps the promised number of significant digits',
+    src='c16_floattext.c', py='py_c16.py',
+    configs={'quick': ['def', 'dtostre'], 'thorough': ['def', 'dtostre']},
+    deadline={'quick': 110, 'thorough': 1500},
+    level=MC,
+    technique='complete enumeration of a structured finite value set x every decimal exponent x every precision on the real formatters, compared with Python\'s independent correctly rounded dtoa (printf build) and checked in exact rational arithmetic (built-in formatter)',
+    rule={'quick': 'values: decimal mantissas of 1..4 digits over {0,1,4,5,9} (the 3- and 4-digit ones on every 4th exponent) and 16 rounding-boundary mantissas (d.ddd5 at the 15th / 6th digit) with both neighbouring doubles, x every decimal exponent -323..308, all powers of two with both neighbours, subnormals, extremes, both signs; doubles and the float32 roundings of the same literals. printf build: exact string comparison with %.15g / %.6g for SCPI_DoubleToStr, SCPI_FloatToStr, SCPI_ResultDouble, SCPI_ResultFloat. Built-in build: SCPI_dtostre at precisions 1, 6, 15 (every 4th value: all 1..15) checked exactly; non-trivial = value whose text was compared / record checked',
+          'thorough': 'mantissas of 1..5 digits on every exponent; every precision 1..15 for every value'},
+    assumptions=['Python\'s float formatting (David Gay dtoa) is correctly rounded and independent of glibc printf',
+                 'doubles are covered by a structured set, not exhaustively'],
+    level_text='The structured value set is enumerated completely; every emitted text is compared with ground truth computed outside the C library.',
+    level_note='known finding for the built-in formatter at large decimal exponents, see known_findings.txt',
+    design_ref='DESIGN.md section 3 / C16')
